@@ -233,6 +233,8 @@ pub fn a_frame() -> impl Strategy<Value = AFrame> {
         1 => ((1u32..9), proptest::collection::vec(any::<u8>(), 0..40)).prop_map(|(s, d)| AFrame::Data(s, d)),
         1 => (10u8..=255, 0u32..4, proptest::collection::vec(any::<u8>(), 0..20)).prop_map(|(t, s, d)| AFrame::Unknown(t, s, d)),
         1 => (1u32..9).prop_map(AFrame::RstStream),
+        // frames at and next to the largest legal size (SETTINGS_MAX_FRAME_SIZE default 2^14)
+        1 => (any::<bool>(), 1u32..9, prop_oneof![Just(16384usize), Just(16383usize), Just(16385usize)], 10u8..=255).prop_map(|(data, s, n, t)| if data && n <= 16384 { AFrame::Data(s, vec![0xAB; n]) } else { AFrame::Unknown(t, s, vec![0xCD; n.min(16384)]) }),
     ]
 }
 
@@ -255,7 +257,7 @@ pub fn run(ctx: &Ctx) {
     let n = ctx.tier.pick(250_000, 4_000_000);
     ctx.run_prop(
         "frame-sequences-x-partitions",
-        "proptest frame sequences (optional preface; SETTINGS with 0..11 parameters incl. unknown/duplicate ids, ACK flag, trailing partial parameter; WINDOW_UPDATE on stream 0 / other with reserved bit or increment 0; PRIORITY on any stream, exclusive bit, weight 0..255; HEADERS with any pseudo-header order, padding, PRIORITY flag, CONTINUATION, stream 0 / != 0; PING, DATA, RST_STREAM, unknown types; any order) x 0..8 generated chunk boundaries; oracle: reference string S|WU|P|PS + sha256[..32] of the generated frames, one-shot and incremental (exactly one report, on the chunk completing the first SETTINGS frame, equal to the reference of the frames completely received by then); non-trivial: >= 3 frames with a non-SETTINGS frame before or between, or a cut inside a frame header",
+        "proptest frame sequences (optional preface; SETTINGS with 0..11 parameters incl. unknown/duplicate ids, ACK flag, trailing partial parameter; WINDOW_UPDATE on stream 0 / other with reserved bit or increment 0; DATA / unknown frames of 16383 and 16384 bytes; PRIORITY on any stream, exclusive bit, weight 0..255; HEADERS with any pseudo-header order, padding, PRIORITY flag, CONTINUATION, stream 0 / != 0; PING, DATA, RST_STREAM, unknown types; any order) x 0..8 generated chunk boundaries; oracle: reference string S|WU|P|PS + sha256[..32] of the generated frames, one-shot and incremental (exactly one report, on the chunk completing the first SETTINGS frame, equal to the reference of the frames completely received by then); non-trivial: >= 3 frames with a non-SETTINGS frame before or between, or a cut inside a frame header",
         n,
         a_case,
         |c: &ACase, st: &mut Stats| {
